@@ -195,9 +195,16 @@ def hasDup : List (Rat × Rat) → Bool
 def holdFrom (prev : Rat) : List Rat → List Rat
   | [] => []
   | f :: fs => let h := if f = 0 then prev else f; h :: holdFrom h fs
-def holdZeros : List Rat → List Rat
+def holdForward : List Rat → List Rat
   | [] => []
   | f :: fs => f :: holdFrom f fs
+/-- leading zeros have no previous frequency to hold: they take the first reported one (repair of the spline's
+    artificial 0-cent data point; `frequencies_held[:reported[0]] = frequencies_held[reported[0]]`) -/
+def backFill (hs : List Rat) : List Rat :=
+  match hs.find? (fun h => decide (h ≠ 0)) with
+  | none => hs
+  | some v => (hs.takeWhile (fun h => decide (h = 0))).map (fun _ => v) ++ hs.dropWhile (fun h => decide (h = 0))
+def holdZeros (fs : List Rat) : List Rat := backFill (holdForward fs)
 
 /-- `interp1d(x, y, 'zero')` inside the range: y of the last knot ≤ x -/
 def interpZero (p : Rat × Rat) : List (Rat × Rat) → Rat → Rat
